@@ -51,8 +51,8 @@ theorem GL_N1_sm0_to0_stress (h0 : F0 ≠ 0) (h1 : F1 ≠ 0) (h2 : F2 ≠ 0) :
   repeat' apply And.intro
   all_goals (first | exact True.intro | ring1 | (field_simp; ring1))
 
-/-- the returned operator is the derivative of the returned stress -/
 set_option maxHeartbeats 3200000 in
+/-- the returned operator is the derivative of the returned stress -/
 theorem GL_N1_sm0_to0_derivative (h0 : F0 ≠ 0) (h1 : F1 ≠ 0) (h2 : F2 ≠ 0) (hla : δ la = 0) (hmu : δ mu = 0) (hf0 : δ Fa0 = 0) (hf1 : δ Fa1 = 0) (hf2 : δ Fa2 = 0) :
     [δ (Gen1.GL_N1_sm0_to0_s0 c c3 fn Fa0 Fa1 Fa2 F0 F1 F2 sa0 sa1 sa2 la mu), δ (Gen1.GL_N1_sm0_to0_s1 c c3 fn Fa0 Fa1 Fa2 F0 F1 F2 sa0 sa1 sa2 la mu), δ (Gen1.GL_N1_sm0_to0_s2 c c3 fn Fa0 Fa1 Fa2 F0 F1 F2 sa0 sa1 sa2 la mu)]
     = [Gen1.GL_N1_sm0_to0_K0_0 c c3 fn Fa0 Fa1 Fa2 F0 F1 F2 sa0 sa1 sa2 la mu * δ F0 + Gen1.GL_N1_sm0_to0_K0_1 c c3 fn Fa0 Fa1 Fa2 F0 F1 F2 sa0 sa1 sa2 la mu * δ F1 + Gen1.GL_N1_sm0_to0_K0_2 c c3 fn Fa0 Fa1 Fa2 F0 F1 F2 sa0 sa1 sa2 la mu * δ F2,
@@ -79,8 +79,8 @@ theorem GL_N1_sm1_to1_stress (h0 : F0 ≠ 0) (h1 : F1 ≠ 0) (h2 : F2 ≠ 0) :
   repeat' apply And.intro
   all_goals (first | exact True.intro | ring1 | (field_simp; ring1))
 
-/-- the returned operator is the derivative of the returned stress -/
 set_option maxHeartbeats 3200000 in
+/-- the returned operator is the derivative of the returned stress -/
 theorem GL_N1_sm1_to1_derivative (h0 : F0 ≠ 0) (h1 : F1 ≠ 0) (h2 : F2 ≠ 0) (hla : δ la = 0) (hmu : δ mu = 0) (hf0 : δ Fa0 = 0) (hf1 : δ Fa1 = 0) (hf2 : δ Fa2 = 0) :
     [δ (Gen1.GL_N1_sm1_to1_s0 c c3 fn Fa0 Fa1 Fa2 F0 F1 F2 sa0 sa1 sa2 la mu), δ (Gen1.GL_N1_sm1_to1_s1 c c3 fn Fa0 Fa1 Fa2 F0 F1 F2 sa0 sa1 sa2 la mu), δ (Gen1.GL_N1_sm1_to1_s2 c c3 fn Fa0 Fa1 Fa2 F0 F1 F2 sa0 sa1 sa2 la mu)]
     = [Gen1.GL_N1_sm1_to1_K0_0 c c3 fn Fa0 Fa1 Fa2 F0 F1 F2 sa0 sa1 sa2 la mu * δ ((F0 * F0 - 1) / 2) + Gen1.GL_N1_sm1_to1_K0_1 c c3 fn Fa0 Fa1 Fa2 F0 F1 F2 sa0 sa1 sa2 la mu * δ ((F1 * F1 - 1) / 2) + Gen1.GL_N1_sm1_to1_K0_2 c c3 fn Fa0 Fa1 Fa2 F0 F1 F2 sa0 sa1 sa2 la mu * δ ((F2 * F2 - 1) / 2),
@@ -107,8 +107,8 @@ theorem GL_N1_sm2_to2_stress (h0 : F0 ≠ 0) (h1 : F1 ≠ 0) (h2 : F2 ≠ 0) :
   repeat' apply And.intro
   all_goals (first | exact True.intro | ring1 | (field_simp; ring1))
 
-/-- the returned operator is the derivative of the returned stress -/
 set_option maxHeartbeats 3200000 in
+/-- the returned operator is the derivative of the returned stress -/
 theorem GL_N1_sm2_to2_derivative (h0 : F0 ≠ 0) (h1 : F1 ≠ 0) (h2 : F2 ≠ 0) (hla : δ la = 0) (hmu : δ mu = 0) (hf0 : δ Fa0 = 0) (hf1 : δ Fa1 = 0) (hf2 : δ Fa2 = 0) :
     [δ (Gen1.GL_N1_sm2_to2_s0 c c3 fn Fa0 Fa1 Fa2 F0 F1 F2 sa0 sa1 sa2 la mu), δ (Gen1.GL_N1_sm2_to2_s1 c c3 fn Fa0 Fa1 Fa2 F0 F1 F2 sa0 sa1 sa2 la mu), δ (Gen1.GL_N1_sm2_to2_s2 c c3 fn Fa0 Fa1 Fa2 F0 F1 F2 sa0 sa1 sa2 la mu)]
     = [Gen1.GL_N1_sm2_to2_K0_0 c c3 fn Fa0 Fa1 Fa2 F0 F1 F2 sa0 sa1 sa2 la mu * δ F0 + Gen1.GL_N1_sm2_to2_K0_1 c c3 fn Fa0 Fa1 Fa2 F0 F1 F2 sa0 sa1 sa2 la mu * δ F1 + Gen1.GL_N1_sm2_to2_K0_2 c c3 fn Fa0 Fa1 Fa2 F0 F1 F2 sa0 sa1 sa2 la mu * δ F2,
@@ -135,8 +135,8 @@ theorem GL_N1_sm0_to3_stress (h0 : F0 ≠ 0) (h1 : F1 ≠ 0) (h2 : F2 ≠ 0) :
   repeat' apply And.intro
   all_goals (first | exact True.intro | ring1 | (field_simp; ring1))
 
-/-- the returned operator is the derivative of the returned stress -/
 set_option maxHeartbeats 3200000 in
+/-- the returned operator is the derivative of the returned stress -/
 theorem GL_N1_sm0_to3_derivative (h0 : F0 ≠ 0) (h1 : F1 ≠ 0) (h2 : F2 ≠ 0) (hla : δ la = 0) (hmu : δ mu = 0) (ha0 : Fa0 ≠ 0) (ha1 : Fa1 ≠ 0) (ha2 : Fa2 ≠ 0) (hf0 : δ Fa0 = 0) (hf1 : δ Fa1 = 0) (hf2 : δ Fa2 = 0) :
     [δ ((F0 * F1 * F2) * (Gen1.GL_N1_sm0_to3_s0 c c3 fn Fa0 Fa1 Fa2 F0 F1 F2 sa0 sa1 sa2 la mu)), δ ((F0 * F1 * F2) * (Gen1.GL_N1_sm0_to3_s1 c c3 fn Fa0 Fa1 Fa2 F0 F1 F2 sa0 sa1 sa2 la mu)), δ ((F0 * F1 * F2) * (Gen1.GL_N1_sm0_to3_s2 c c3 fn Fa0 Fa1 Fa2 F0 F1 F2 sa0 sa1 sa2 la mu))]
     = [Gen1.GL_N1_sm0_to3_K0_0 c c3 fn Fa0 Fa1 Fa2 F0 F1 F2 sa0 sa1 sa2 la mu * δ (F0 / Fa0) + Gen1.GL_N1_sm0_to3_K0_1 c c3 fn Fa0 Fa1 Fa2 F0 F1 F2 sa0 sa1 sa2 la mu * δ (F1 / Fa1) + Gen1.GL_N1_sm0_to3_K0_2 c c3 fn Fa0 Fa1 Fa2 F0 F1 F2 sa0 sa1 sa2 la mu * δ (F2 / Fa2),
@@ -163,8 +163,8 @@ theorem HK_N1_sm0_to0_stress (h0 : F0 ≠ 0) (h1 : F1 ≠ 0) (h2 : F2 ≠ 0) :
   repeat' apply And.intro
   all_goals (first | exact True.intro | ring1 | (field_simp; ring1))
 
-/-- the returned operator is the derivative of the returned stress -/
 set_option maxHeartbeats 3200000 in
+/-- the returned operator is the derivative of the returned stress -/
 theorem HK_N1_sm0_to0_derivative (h0 : F0 ≠ 0) (h1 : F1 ≠ 0) (h2 : F2 ≠ 0) (hla : δ la = 0) (hmu : δ mu = 0) (hf0 : δ Fa0 = 0) (hf1 : δ Fa1 = 0) (hf2 : δ Fa2 = 0)
     (hl0 : δ (fn.log F0) = δ F0 / F0) (hl1 : δ (fn.log F1) = δ F1 / F1) (hl2 : δ (fn.log F2) = δ F2 / F2)
     (hla0 : δ (fn.log Fa0) = 0) (hla1 : δ (fn.log Fa1) = 0) (hla2 : δ (fn.log Fa2) = 0) :
@@ -193,8 +193,8 @@ theorem HK_N1_sm1_to1_stress (h0 : F0 ≠ 0) (h1 : F1 ≠ 0) (h2 : F2 ≠ 0) :
   repeat' apply And.intro
   all_goals (first | exact True.intro | ring1 | (field_simp; ring1))
 
-/-- the returned operator is the derivative of the returned stress -/
 set_option maxHeartbeats 3200000 in
+/-- the returned operator is the derivative of the returned stress -/
 theorem HK_N1_sm1_to1_derivative (h0 : F0 ≠ 0) (h1 : F1 ≠ 0) (h2 : F2 ≠ 0) (hla : δ la = 0) (hmu : δ mu = 0) (hf0 : δ Fa0 = 0) (hf1 : δ Fa1 = 0) (hf2 : δ Fa2 = 0)
     (hl0 : δ (fn.log F0) = δ F0 / F0) (hl1 : δ (fn.log F1) = δ F1 / F1) (hl2 : δ (fn.log F2) = δ F2 / F2)
     (hla0 : δ (fn.log Fa0) = 0) (hla1 : δ (fn.log Fa1) = 0) (hla2 : δ (fn.log Fa2) = 0) :
@@ -223,8 +223,8 @@ theorem HK_N1_sm2_to2_stress (h0 : F0 ≠ 0) (h1 : F1 ≠ 0) (h2 : F2 ≠ 0) :
   repeat' apply And.intro
   all_goals (first | exact True.intro | ring1 | (field_simp; ring1))
 
-/-- the returned operator is the derivative of the returned stress -/
 set_option maxHeartbeats 3200000 in
+/-- the returned operator is the derivative of the returned stress -/
 theorem HK_N1_sm2_to2_derivative (h0 : F0 ≠ 0) (h1 : F1 ≠ 0) (h2 : F2 ≠ 0) (hla : δ la = 0) (hmu : δ mu = 0) (hf0 : δ Fa0 = 0) (hf1 : δ Fa1 = 0) (hf2 : δ Fa2 = 0)
     (hl0 : δ (fn.log F0) = δ F0 / F0) (hl1 : δ (fn.log F1) = δ F1 / F1) (hl2 : δ (fn.log F2) = δ F2 / F2)
     (hla0 : δ (fn.log Fa0) = 0) (hla1 : δ (fn.log Fa1) = 0) (hla2 : δ (fn.log Fa2) = 0) :
@@ -253,8 +253,8 @@ theorem HK_N1_sm0_to3_stress (h0 : F0 ≠ 0) (h1 : F1 ≠ 0) (h2 : F2 ≠ 0) :
   repeat' apply And.intro
   all_goals (first | exact True.intro | ring1 | (field_simp; ring1))
 
-/-- the returned operator is the derivative of the returned stress -/
 set_option maxHeartbeats 3200000 in
+/-- the returned operator is the derivative of the returned stress -/
 theorem HK_N1_sm0_to3_derivative (h0 : F0 ≠ 0) (h1 : F1 ≠ 0) (h2 : F2 ≠ 0) (hla : δ la = 0) (hmu : δ mu = 0) (ha0 : Fa0 ≠ 0) (ha1 : Fa1 ≠ 0) (ha2 : Fa2 ≠ 0) (hf0 : δ Fa0 = 0) (hf1 : δ Fa1 = 0) (hf2 : δ Fa2 = 0)
     (hl0 : δ (fn.log F0) = δ F0 / F0) (hl1 : δ (fn.log F1) = δ F1 / F1) (hl2 : δ (fn.log F2) = δ F2 / F2)
     (hla0 : δ (fn.log Fa0) = 0) (hla1 : δ (fn.log Fa1) = 0) (hla2 : δ (fn.log Fa2) = 0) :
